@@ -16,10 +16,14 @@ def plan(tier):
     qs = []
     # (kind, length): 'safe' = memory safety of every access for every string of that length; 'full' = safety + result oracle
     specs = [('small', 5), ('safe', 66)] if tier == 'quick' else [('full', 3), ('full', 5), ('full', 6), ('full', 7), ('full', 8), ('full', 9), ('safe', 12), ('safe', 40), ('safe', 66), ('safe', 70)]
-    for kind, ln in specs:
-        q = Query('%s_string_len%d' % (kind, ln), [H], ['LEN=%d' % ln, 'VF_LIST_CAP=8'] + (['ORACLE=1'] if kind in ('full', 'small') else []) + (['SMALL_ALPHABET=1'] if kind == 'small' else []), stl='model', rt=('rt_cbmc.c', 'rt_main.c', 'rt_model.c', 'rt_str.c'), unwind=256,
+    specs = [(k, l, None) for k, l in specs]
+    if tier == 'quick':
+        # the small-alphabet query is split by its first byte (7 cubes run in parallel; together they are the original query)
+        specs = [('small', 5, ord(c)) for c in 'enGB_.x'] + [s_ for s_ in specs if s_[0] != 'small']
+    for kind, ln, first in specs:
+        q = Query('%s_string_len%d%s' % (kind, ln, '' if first is None else '_first%02x' % first), [H], ['LEN=%d' % ln, 'VF_LIST_CAP=8'] + (['FIRST_BYTE=%d' % first] if first is not None else []) + (['ORACLE=1'] if kind in ('full', 'small') else []) + (['SMALL_ALPHABET=1'] if kind == 'small' else []), stl='model', rt=('rt_cbmc.c', 'rt_main.c', 'rt_model.c', 'rt_str.c'), unwind=256,
                   unwindset=['strcmp.0:%d' % max(ln + 3, 68), 'strlen.0:%d' % (ln + 3), 'strstr.0:%d' % (ln + 3), 'memcpy.0:%d' % max(ln + 3, 132), 'memset.0:132'],
-                  timeout=3000, mem_gb=14, expect_reach=(['fallback'] + (['success'] if ln >= 5 else [])) if kind in ('full', 'small') else ['returned'],
+                  timeout=3000, mem_gb=14, expect_reach=((['fallback'] + (['success'] if ln >= 5 and first in (None, ord('e')) else [])) if first in (None, ord('e'), ord('x')) else []) if kind in ('full', 'small') else ['returned'],
                   desc={'input': 'every NUL-terminated string of exactly %d bytes (each byte symbolic, non-zero)' % ln + (' over the alphabet {e,n,G,B,_,.,x}' if kind == 'small' else ''), 'tables': 'the real 224 language and 249 country entries',
                         'obligations': 'memory safety of every access' + ('; result = documented fallback or a table hit naming the input\'s parts' if kind in ('full', 'small') else '')})
         q.repo_srcs = ['src/LocaleInfo.cpp']
